@@ -11,10 +11,12 @@ import (
 	"os"
 	"runtime"
 	"strings"
+	"sync"
 	"sync/atomic"
 	"time"
 
 	"tunnox-core/internal/protocol/session"
+	"tunnox-core/internal/verifhook"
 	"tunnox-core/internal/protocol/session/crossnode"
 	"tunnox-core/verifsim/simnet"
 	"tunnox-core/verifsim/simrt"
@@ -180,10 +182,11 @@ func init() {
 			"encoded by the real writer onto a simnet link (6 segmentation laws incl. cut sets aimed at header offsets, 5 buffer capacities) followed by a drawn tail (none, cut header, oversize length, cut payload, garbage), decoded by the real reader in a concurrent task; " +
 			"non-trivial when a Read was cut inside a header/payload, frames coalesced, the tail was not empty or a write was refused. " +
 			"forward (bubble): two real runBidirectionalForward instances joined by a frame-carrying simnet link, two applications each with a writer task (0-6 chunks up to 70000 bytes, then half-close) and a reader task, laws/capacities drawn per link; " +
-			"non-trivial when both directions carried bytes. " +
+			"the local connection given to each forwarder is drawn among half-close capable / Close only / plain ReadWriter + LocalConnCloser, and every application chunk is preceded by a drawn pause (0-700 ms) so that either direction may end first; non-trivial when both directions carried bytes. " +
 			"stream (outside the bubble, loopback TCP): FrameStream A performs 0-6 writes (0,1,small,limit-1,limit,limit+1,2*limit,2*limit+1,200K,1M) and ends with CloseWrite/Close/nothing/write-after-close; the harness replays A's wire to FrameStream B in seeded chunks, " +
 			"inserting foreign-tunnel data/EOF/Close frames, own-tunnel frames of undefined and non-data types and empty data frames at drawn frame boundaries, in 1/4 of the runs cuts the wire (inside a header, right after a header, inside a payload, at a boundary), otherwise closes the connection after the last frame or (half of the runs that end with an EOF/Close frame) keeps it open; B reads with a drawn buffer policy (1 B - 128 KiB); " +
-			"non-trivial when a write was split, a frame was injected, the read buffer was smaller than a frame or the wire was cut. " +
+			"in 1/3 of the runs one or two further writers (FrameStreams of other tunnels, raw WriteFrame callers) write on A's connection concurrently, interleaved at every instrumented yield/lock point by a seeded cooperative scheduler (their frames replace the injected ones); in 3/4 of the runs B first writes and/or CloseWrite/Close-s its own direction (checked on the wire) before it reads; the wire fault may also be a header announcing more than the limit; " +
+			"non-trivial when a write was split, a frame was injected, writers were concurrent, B had closed its write side, the read buffer was smaller than a frame or the wire was cut/corrupt. " +
 			"decoder (outside the bubble): arbitrary/mutated byte strings through the real decoder behind a seeded chunking reader with heap growth measured per call; non-trivial when the input was not a clean frame sequence. distinct = distinct schedule hash (bubble) or draw vector (pure) among the non-trivial runs.",
 		Real: []string{"crossnode.WriteFrameToWriter", "crossnode.ReadFrameFromReader", "crossnode.TunnelIDFromString/TunnelIDToString", "crossnode.FrameStream Read/Write/CloseWrite/Close over crossnode.Conn and *net.TCPConn (WriteFrame/ReadFrame)", "session.runBidirectionalForward + CountingReadWriter"},
 		Stub: []string{"codec/forward worlds: transport is a simnet link", "forward world: the RemoteConn given to runBidirectionalForward is a harness frame stream (real codec functions, harness read/write/half-close state) because FrameStream only accepts *net.TCPConn", "stream world: kernel loopback TCP with the harness as the wire between two socket pairs; the peer node is the harness", "crossnode pool, CrossNodeListener accept loop and handlers are not started"},
@@ -569,10 +572,37 @@ func (s *c10simStream) end(typ byte) error {
 func (s *c10simStream) CloseWrite() error { return s.end(c10TEOF) }
 func (s *c10simStream) Close() error      { s.closes++; return s.end(c10TClose) }
 
+// local connection shapes handed to runBidirectionalForward: not every local
+// connection can half-close (net.Pipe, stream wrappers), some are closed
+// through LocalConnCloser only.
+type c10rwc struct{ c *simnet.Conn }
+
+func (x c10rwc) Read(p []byte) (int, error)  { return x.c.Read(p) }
+func (x c10rwc) Write(p []byte) (int, error) { return x.c.Write(p) }
+func (x c10rwc) Close() error                { return x.c.Close() }
+
+type c10rw struct{ c *simnet.Conn }
+
+func (x c10rw) Read(p []byte) (int, error)  { return x.c.Read(p) }
+func (x c10rw) Write(p []byte) (int, error) { return x.c.Write(p) }
+
+var c10LocalKinds = []string{"halfcloser", "closer-only", "ext-closer"}
+
+func c10Local(kind int, cn *simnet.Conn) (io.ReadWriter, io.Closer) {
+	switch kind {
+	case 1:
+		return c10rwc{cn}, nil
+	case 2:
+		return c10rw{cn}, cn
+	}
+	return cn, nil
+}
+
 type c10app struct {
 	name   string
 	conn   *simnet.Conn
 	chunks [][]byte
+	delays []time.Duration
 	sent   []byte
 	recv   []byte
 	rerr   error
@@ -582,9 +612,11 @@ type c10app struct {
 func c10RunForward(w *simrt.World) {
 	c := w.C
 	own, _, idClass := c10IDStrings(c)
-	mk := func(name string) (chunks [][]byte, total int) {
+	mk := func(name string) (chunks [][]byte, delays []time.Duration, total int) {
 		n := c.Biased(7, name+".chunks")
 		for i := 0; i < n; i++ {
+			// pacing: lets one direction finish (and half-close) while the other still has bytes to send
+			delays = append(delays, []time.Duration{0, 0, time.Millisecond, 50 * time.Millisecond, 700 * time.Millisecond}[c.Intn(5, name+".delay")])
 			var sz int
 			switch c.Intn(6, name+".size.class") {
 			case 0:
@@ -608,8 +640,9 @@ func c10RunForward(w *simrt.World) {
 		}
 		return
 	}
-	ch1, t1 := mk("app1")
-	ch2, t2 := mk("app2")
+	ch1, dl1, t1 := mk("app1")
+	ch2, dl2, t2 := mk("app2")
+	lk1, lk2 := c.Intn(len(c10LocalKinds), "n1.localkind"), c.Intn(len(c10LocalKinds), "n2.localkind")
 	link := func(nameA, nameB string) simnet.LinkConfig {
 		cfg := simnet.LinkConfig{NameA: nameA, NameB: nameB}
 		laws := []simnet.Law{simnet.LawAll, simnet.LawMixed, simnet.LawMTU, simnet.LawSmall, simnet.LawOne}
@@ -630,9 +663,9 @@ func c10RunForward(w *simrt.World) {
 		return cfg
 	}
 	cfg1, cfgX, cfg2 := link("app1", "n1.local"), link("n1.remote", "n2.remote"), link("n2.local", "app2")
-	w.Sample(fmt.Sprintf("world=forward id=%s app1 sends %d B in %d chunks, app2 sends %d B in %d chunks; links app1-n1 %s/%s cap%d, n1-n2 %s/%s cap%d, n2-app2 %s/%s cap%d", idClass, t1, len(ch1), t2, len(ch2),
+	w.Sample(fmt.Sprintf("world=forward id=%s local conns %s/%s delays %v/%v app1 sends %d B in %d chunks, app2 sends %d B in %d chunks; links app1-n1 %s/%s cap%d, n1-n2 %s/%s cap%d, n2-app2 %s/%s cap%d", idClass, c10LocalKinds[lk1], c10LocalKinds[lk2], dl1, dl2, t1, len(ch1), t2, len(ch2),
 		simnet.LawNames[cfg1.LawAB], simnet.LawNames[cfg1.LawBA], cfg1.Capacity, simnet.LawNames[cfgX.LawAB], simnet.LawNames[cfgX.LawBA], cfgX.Capacity, simnet.LawNames[cfg2.LawAB], simnet.LawNames[cfg2.LawBA], cfg2.Capacity))
-	w.State(fmt.Sprintf("forward/%v/%v/x=%s,%s,cap%d", t1 > 0, t2 > 0, simnet.LawNames[cfgX.LawAB], simnet.LawNames[cfgX.LawBA], cfgX.Capacity))
+	w.State(fmt.Sprintf("forward/%v/%v/x=%s,%s,cap%d/local=%s,%s", t1 > 0, t2 > 0, simnet.LawNames[cfgX.LawAB], simnet.LawNames[cfgX.LawBA], cfgX.Capacity, c10LocalKinds[lk1], c10LocalKinds[lk2]))
 	w.Probe("world.forward")
 
 	a1, l1 := simnet.NewLink(w, cfg1)
@@ -643,19 +676,23 @@ func c10RunForward(w *simrt.World) {
 	s2 := &c10simStream{w: w, conn: x2, id: id}
 	var up1, down1, up2, down2 atomic.Int64
 	n1 := w.Spawn("node1", func() {
-		session.RunBidirectionalForwardForVerif(&session.BidirectionalForwardConfig{TunnelID: own, LogPrefix: "n1", LocalConn: l1, RemoteConn: s1, BytesSentCounter: &up1, BytesReceivedCounter: &down1})
+		lc, closer := c10Local(lk1, l1)
+		session.RunBidirectionalForwardForVerif(&session.BidirectionalForwardConfig{TunnelID: own, LogPrefix: "n1", LocalConn: lc, LocalConnCloser: closer, RemoteConn: s1, BytesSentCounter: &up1, BytesReceivedCounter: &down1})
 	})
 	n2 := w.Spawn("node2", func() {
-		cfg := &session.BidirectionalForwardConfig{TunnelID: own, LogPrefix: "n2", LocalConn: l2, RemoteConn: s2}
+		lc, closer := c10Local(lk2, l2)
+		cfg := &session.BidirectionalForwardConfig{TunnelID: own, LogPrefix: "n2", LocalConn: lc, LocalConnCloser: closer, RemoteConn: s2}
 		cfg.BytesSentCounter, cfg.BytesReceivedCounter = &up2, &down2
 		session.RunBidirectionalForwardForVerif(cfg)
 	})
-	apps := []*c10app{{name: "app1", conn: a1, chunks: ch1}, {name: "app2", conn: a2, chunks: ch2}}
+	apps := []*c10app{{name: "app1", conn: a1, chunks: ch1, delays: dl1}, {name: "app2", conn: a2, chunks: ch2, delays: dl2}}
+	kindOf := map[string]string{"app1": c10LocalKinds[lk1], "app2": c10LocalKinds[lk2]}
 	var tasks []*simrt.Task
 	for _, ap := range apps {
 		ap := ap
 		tasks = append(tasks, w.Spawn(ap.name+".writer", func() {
-			for _, ch := range ap.chunks {
+			for i, ch := range ap.chunks {
+				w.Sleep(ap.delays[i])
 				n, err := ap.conn.Write(ch)
 				ap.sent = append(ap.sent, ch[:n]...)
 				if err != nil {
@@ -678,9 +715,9 @@ func c10RunForward(w *simrt.World) {
 		}))
 	}
 	tasks = append(tasks, n1, n2)
-	// No timers exist in this code: after 10 simulated seconds everything
-	// that can happen has happened.
-	w.Sleep(10 * time.Second)
+	// No timers exist in this code and the applications pace themselves for
+	// less than 5 s: after 30 simulated seconds everything that can happen has happened.
+	w.Sleep(30 * time.Second)
 	var stuck []string
 	for i, t := range tasks {
 		if !t.Done() {
@@ -707,7 +744,7 @@ func c10RunForward(w *simrt.World) {
 	}
 	check := func(from, to *c10app, dir string) bool {
 		if from.werr != nil {
-			w.Violationf("C10:forward:write-error", "%s: local write failed after %d bytes: %v", from.name, len(from.sent), from.werr)
+			w.Violationf("C10:forward:local-write-failed:"+kindOf[from.name], "%s: the application's write to its local connection (forwarder side: %s) failed after %d bytes although it had not closed: %v; the peer had received %d bytes and then %v", from.name, kindOf[from.name], len(from.sent), from.werr, len(to.recv), to.rerr)
 			return false
 		}
 		if !bytes.Equal(to.recv, from.sent) {
@@ -898,6 +935,199 @@ func c10PureDecoder(c *simrt.Choice, res *simrt.Result) {
 	res.Probes["decoder.end."+end]++
 }
 
+// ------------------------------------------------- cooperative scheduler
+//
+// FrameStream needs a real *net.TCPConn, so it cannot run inside the bubble.
+// To still explore interleavings of several writers on one connection
+// deterministically, the stream world installs this small verifhook runtime
+// for the writing phase: the registered tasks run one at a time and hand the
+// baton back at every instrumented yield/lock point; which task continues is
+// drawn from the choice stream. Socket writes never block for long because a
+// harness goroutine drains the peer socket all the time.
+
+type c10coopTask struct {
+	name      string
+	fn        func()
+	gate      chan struct{}
+	done      bool
+	lockWait  bool
+	waitEpoch uint64
+	suppress  int
+	panicked  string
+}
+
+type c10coop struct {
+	c     *simrt.Choice
+	mu    sync.Mutex
+	byG   map[uint64]*c10coopTask
+	once  map[*sync.Once]*c10coopTask
+	epoch atomic.Uint64
+	sig   chan struct{}
+	steps int
+}
+
+func c10goid() uint64 {
+	var buf [64]byte
+	n := runtime.Stack(buf[:], false)
+	var id uint64
+	for _, ch := range buf[10:n] {
+		if ch < '0' || ch > '9' {
+			break
+		}
+		id = id*10 + uint64(ch-'0')
+	}
+	return id
+}
+
+func (r *c10coop) cur() *c10coopTask {
+	id := c10goid()
+	r.mu.Lock()
+	t := r.byG[id]
+	r.mu.Unlock()
+	return t
+}
+
+func (r *c10coop) park(t *c10coopTask) {
+	r.sig <- struct{}{}
+	<-t.gate
+}
+
+func (r *c10coop) Yield(site string) {
+	if t := r.cur(); t != nil && t.suppress == 0 {
+		r.park(t)
+	}
+}
+
+func (r *c10coop) Lock(site string, try func() bool, lock func()) {
+	t := r.cur()
+	if t == nil || t.suppress > 0 {
+		lock()
+		return
+	}
+	r.park(t)
+	for {
+		e := r.epoch.Load()
+		if try() {
+			return
+		}
+		t.lockWait, t.waitEpoch = true, e
+		r.park(t)
+		t.lockWait = false
+	}
+}
+
+func (r *c10coop) OnceEnter(o *sync.Once) {
+	t := r.cur()
+	if t == nil || t.suppress > 0 {
+		return
+	}
+	r.park(t)
+	for {
+		e := r.epoch.Load()
+		r.mu.Lock()
+		h := r.once[o]
+		if h == nil || h == t {
+			r.once[o] = t
+			r.mu.Unlock()
+			return
+		}
+		r.mu.Unlock()
+		t.lockWait, t.waitEpoch = true, e
+		r.park(t)
+		t.lockWait = false
+	}
+}
+
+func (r *c10coop) OnceLeave(o *sync.Once) {
+	r.mu.Lock()
+	if t := r.once[o]; t != nil && t == r.byG[c10goid()] {
+		delete(r.once, o)
+	}
+	r.mu.Unlock()
+	r.epoch.Add(1)
+}
+
+func (r *c10coop) PoolGet(p *sync.Pool) any    { return p.Get() }
+func (r *c10coop) PoolPut(p *sync.Pool, x any) { p.Put(x) }
+func (r *c10coop) SelectOrder(n int) []int     { return nil }
+func (r *c10coop) Unlocked()                   { r.epoch.Add(1) }
+func (r *c10coop) Go(site string, f func()) { go f() }
+func (r *c10coop) Suppress(d int) {
+	if t := r.cur(); t != nil {
+		t.suppress += d
+	}
+}
+
+// run executes the tasks to completion, one at a time.
+func (r *c10coop) run(tasks []*c10coopTask) error {
+	r.byG = map[uint64]*c10coopTask{}
+	r.once = map[*sync.Once]*c10coopTask{}
+	r.sig = make(chan struct{})
+	wait := func() error {
+		select {
+		case <-r.sig:
+			return nil
+		case <-time.After(15 * time.Second):
+			return fmt.Errorf("a task neither yielded nor finished within 15 s")
+		}
+	}
+	verifhook.Install(r)
+	defer verifhook.Install(nil)
+	for _, t := range tasks {
+		t := t
+		t.gate = make(chan struct{})
+		go func() {
+			id := c10goid()
+			r.mu.Lock()
+			r.byG[id] = t
+			r.mu.Unlock()
+			defer func() {
+				if p := recover(); p != nil {
+					buf := make([]byte, 4<<10)
+					t.panicked = fmt.Sprintf("%v\n%s", p, buf[:runtime.Stack(buf, false)])
+				}
+				r.mu.Lock()
+				delete(r.byG, id)
+				r.mu.Unlock()
+				t.done = true
+				r.sig <- struct{}{}
+			}()
+			r.park(t)
+			t.fn()
+		}()
+		if err := wait(); err != nil {
+			return err
+		}
+	}
+	for {
+		var cands []*c10coopTask
+		alive := 0
+		e := r.epoch.Load()
+		for _, t := range tasks {
+			if t.done {
+				continue
+			}
+			alive++
+			if t.lockWait && t.waitEpoch == e {
+				continue
+			}
+			cands = append(cands, t)
+		}
+		if alive == 0 {
+			return nil
+		}
+		if len(cands) == 0 {
+			return fmt.Errorf("deadlock: %d tasks wait for a lock nobody releases", alive)
+		}
+		t := cands[r.c.Intn(len(cands), "coop.sched")]
+		r.steps++
+		t.gate <- struct{}{}
+		if err := wait(); err != nil {
+			return err
+		}
+	}
+}
+
 // ----------------------------------------------------------------- stream
 
 type c10inj struct {
@@ -967,6 +1197,46 @@ func c10PureStream(c *simrt.Choice, res *simrt.Result) {
 	}
 	inject := c.Chance(2, 3, "inject")
 	cut := c.Chance(1, 4, "cut")
+	// B's own write side: a reader that has already sent its request and
+	// half-closed (or closed) must report what arrives exactly like one that has not
+	bOps := []string{"none", "write+closewrite", "closewrite", "write+close"}[c.Intn(4, "b.ops")]
+	// other writers on A's connection (other tunnels' streams, raw response
+	// frames of the listener), interleaved with A by the cooperative scheduler
+	type otherWriter struct {
+		kind   string // "stream" or "raw"
+		idStr  string
+		id     [16]byte
+		sizes  []int
+		ending string
+		sent   []byte
+		err    error
+	}
+	var others []*otherWriter
+	conc := c.Chance(1, 3, "a.concurrent")
+	if conc {
+		inject = false
+		nO := 1 + c.Intn(2, "conc.others")
+		for j := 0; j < nO; j++ {
+			o := &otherWriter{kind: "stream", idStr: foreign, ending: []string{"none", "closewrite", "close"}[c.Intn(3, "conc.ending")]}
+			if c.Intn(3, "conc.kind") == 2 {
+				// (the listener's helpers use the all-zero id; a second raw writer gets another id so that the wire can be attributed)
+				o.kind, o.idStr, o.ending = "raw", strings.Repeat("\x00raw", j), "none"
+			} else if shared || j > 0 {
+				o.idStr = fmt.Sprintf("~%d%s", j, foreign) // distinct on the wire (the 16-byte collision is a separate, known class)
+			}
+			o.id = c10RefID(o.idStr)
+			k := 1 + c.Intn(4, "conc.writes")
+			for i := 0; i < k; i++ {
+				sz := []int{1, 17, 4096, c10Limit, 300, c10Limit + 5, 3*c10Limit + 1}[c.Intn(7, "conc.size")]
+				if o.kind == "raw" && sz > c10Limit {
+					sz = c10Limit
+				}
+				o.sizes = append(o.sizes, sz)
+			}
+			others = append(others, o)
+		}
+		shared = false
+	}
 	chunkPlan := make([]int, 1+c.Intn(6, "feed.chunks"))
 	for i := range chunkPlan {
 		chunkPlan[i] = []int{1 << 20, 1, 3, 20, 21, 22, 1460, c10Limit + c10Hdr}[c.Intn(8, "feed.chunk")]
@@ -1044,7 +1314,7 @@ func c10PureStream(c *simrt.Choice, res *simrt.Result) {
 	fsA := crossnode.NewFrameStream(connA, idA)
 	fsB := crossnode.NewFrameStream(connB, idA)
 
-	// ---- phase 1: A writes, the harness records the wire
+	// ---- phase 1: A (and the other writers) write, the harness records the wire
 	type drained struct {
 		b   []byte
 		err error
@@ -1052,40 +1322,99 @@ func c10PureStream(c *simrt.Choice, res *simrt.Result) {
 	drainCh := make(chan drained, 1)
 	go func() { b, err := io.ReadAll(hA); drainCh <- drained{b, err} }()
 	var sent []byte
-	for i, sz := range sizes {
-		p := c10Pattern(sz, salt+byte(i))
-		n, err := fsA.Write(p)
-		if err != nil || n != sz {
-			c10Viol(res, "C10:stream:write-failed:"+szClass, "write %d of %d bytes returned n=%d err=%v", i, sz, n, err)
+	var termType byte
+	cw := ""
+	if conc {
+		cw = ":concurrent-writers"
+	}
+	runA := func() {
+		for i, sz := range sizes {
+			p := c10Pattern(sz, salt+byte(i))
+			n, err := fsA.Write(p)
+			if err != nil || n != sz {
+				c10Viol(res, "C10:stream:write-failed:"+szClass+cw, "write %d of %d bytes returned n=%d err=%v", i, sz, n, err)
+				return
+			}
+			sent = append(sent, p...)
+		}
+		var err error
+		switch ending {
+		case "closewrite", "closewrite+write", "closewrite+close":
+			err = fsA.CloseWrite()
+			termType = c10TEOF
+		case "close", "close+write":
+			err = fsA.Close()
+			termType = c10TClose
+		}
+		if err != nil {
+			c10Viol(res, "C10:stream:close-failed"+cw, "%s: %v", ending, err)
+		}
+		switch ending {
+		case "closewrite+write", "close+write":
+			n, err := fsA.Write([]byte("late"))
+			if err == nil || n != 0 {
+				c10Viol(res, "C10:stream:write-after-close-accepted", "Write after %s returned n=%d err=%v", strings.TrimSuffix(ending, "+write"), n, err)
+			}
+			res.Probes["stream.write-after-close"]++
+		case "closewrite+close":
+			if err := fsA.Close(); err != nil {
+				c10Viol(res, "C10:stream:close-failed"+cw, "Close after CloseWrite: %v", err)
+			}
+		}
+	}
+	if !conc {
+		runA()
+	} else {
+		tasks := []*c10coopTask{{name: "A", fn: runA}}
+		for j, o := range others {
+			o := o
+			fn := func() {
+				fs := crossnode.NewFrameStream(connA, o.id)
+				for i, sz := range o.sizes {
+					p := c10Pattern(sz, byte(0xA0+16*j+i))
+					if o.kind == "raw" {
+						// what the listener's response helpers do on a shared connection
+						o.err = crossnode.WriteFrame(sA, o.id, 0x06, p)
+					} else {
+						_, o.err = fs.Write(p)
+					}
+					if o.err != nil {
+						return
+					}
+					o.sent = append(o.sent, p...)
+				}
+				switch o.ending {
+				case "closewrite":
+					o.err = fs.CloseWrite()
+				case "close":
+					o.err = fs.Close()
+				}
+			}
+			tasks = append(tasks, &c10coopTask{name: fmt.Sprintf("other%d", j), fn: fn})
+		}
+		coop := &c10coop{c: c}
+		if err := coop.run(tasks); err != nil {
+			c10Viol(res, "C10:harness:coop", "cooperative scheduler: %v", err)
 			sA.Close()
 			<-drainCh
 			return
 		}
-		sent = append(sent, p...)
-	}
-	var termType byte
-	switch ending {
-	case "closewrite", "closewrite+write", "closewrite+close":
-		err = fsA.CloseWrite()
-		termType = c10TEOF
-	case "close", "close+write":
-		err = fsA.Close()
-		termType = c10TClose
-	}
-	if err != nil {
-		c10Viol(res, "C10:stream:close-failed", "%s: %v", ending, err)
-	}
-	switch ending {
-	case "closewrite+write", "close+write":
-		n, err := fsA.Write([]byte("late"))
-		if err == nil || n != 0 {
-			c10Viol(res, "C10:stream:write-after-close-accepted", "Write after %s returned n=%d err=%v", strings.TrimSuffix(ending, "+write"), n, err)
+		res.Probes["stream.concurrent-writers"]++
+		for _, t := range tasks {
+			if t.panicked != "" {
+				c10Viol(res, "C10:panic:concurrent-writers", "task %s: %s", t.name, t.panicked)
+			}
 		}
-		res.Probes["stream.write-after-close"]++
-	case "closewrite+close":
-		if err := fsA.Close(); err != nil {
-			c10Viol(res, "C10:stream:close-failed", "Close after CloseWrite: %v", err)
+		for j, o := range others {
+			if o.err != nil {
+				c10Viol(res, "C10:stream:write-failed:other-writer"+cw, "writer %d (%s) on the shared connection failed: %v", j, o.kind, o.err)
+			}
 		}
+	}
+	if len(res.Violations) > 0 {
+		sA.Close()
+		<-drainCh
+		return
 	}
 	sA.CloseWrite()
 	var wire []byte
@@ -1100,36 +1429,70 @@ func c10PureStream(c *simrt.Choice, res *simrt.Result) {
 		c10Viol(res, "C10:harness:loopback", "draining A's socket timed out")
 		return
 	}
-	aFrames, _, end := c10RefParse(wire)
+	allFrames, _, end := c10RefParse(wire)
 	if end != "clean" {
-		c10Viol(res, "C10:stream:wire:malformed:"+end, "A's %d wire bytes do not parse as frames: %s after %d frames", len(wire), end, len(aFrames))
+		c10Viol(res, "C10:stream:wire:malformed:"+end+cw, "the %d wire bytes of A's connection do not parse as frames: %s after %d frames (writers on the connection: %d)", len(wire), end, len(allFrames), 1+len(others))
 		return
 	}
-	var onWire []byte
-	for i := range aFrames {
-		f := &aFrames[i]
-		f.origin = "A"
-		if f.id != idA {
-			c10Viol(res, "C10:stream:wire:tunnel-id", "frame %d carries id %x, stream id is %x", i, f.id, idA)
+	// every frame on the wire belongs to exactly one writer; per writer the
+	// frames carry what it wrote, in order, and its EOF/Close frame comes last
+	var aFrames []c10frame
+	{
+		type acct struct {
+			name    string
+			data    []byte
+			term    byte
+			sawTerm bool
+		}
+		accts := map[[16]byte]*acct{idA: {name: "A"}}
+		for j, o := range others {
+			accts[o.id] = &acct{name: fmt.Sprintf("other%d(%s)", j, o.kind)}
+		}
+		for i := range allFrames {
+			f := &allFrames[i]
+			a := accts[f.id]
+			if a == nil {
+				c10Viol(res, "C10:stream:wire:tunnel-id"+cw, "frame %d carries id %x which no writer of this connection uses", i, f.id)
+				return
+			}
+			if a.sawTerm {
+				c10Viol(res, "C10:stream:wire:frame-after-terminal"+cw, "frame %d (type %#x) of writer %s follows its own EOF/Close frame", i, f.typ, a.name)
+				return
+			}
+			isRaw := a.name != "A" && strings.HasSuffix(a.name, "(raw)")
+			switch {
+			case f.typ == c10TData && !isRaw, f.typ == 0x06 && isRaw:
+				a.data = append(a.data, f.data...)
+			case (f.typ == c10TEOF || f.typ == c10TClose) && len(f.data) == 0 && !isRaw:
+				a.term, a.sawTerm = f.typ, true
+			default:
+				c10Viol(res, "C10:stream:wire:unexpected-frame"+cw, "frame %d: writer %s, type %#x len %d (ending=%s)", i, a.name, f.typ, len(f.data), ending)
+				return
+			}
+			if a.name == "A" {
+				f.origin = "A"
+				aFrames = append(aFrames, *f)
+			} else {
+				f.origin = map[byte]string{c10TData: "foreign-data", c10TEOF: "foreign-eof", c10TClose: "foreign-close", 0x06: "foreign-raw"}[f.typ]
+			}
+		}
+		a := accts[idA]
+		if !bytes.Equal(a.data, sent) {
+			c10Viol(res, "C10:stream:wire:data-mismatch:"+szClass+cw, "A wrote %d bytes, its data frames on the wire carry %d bytes, first difference at %d", len(sent), len(a.data), firstDiff(a.data, sent))
 			return
 		}
-		last := i == len(aFrames)-1
-		switch {
-		case f.typ == c10TData:
-			onWire = append(onWire, f.data...)
-		case last && termType != 0 && f.typ == termType && len(f.data) == 0:
-		default:
-			c10Viol(res, "C10:stream:wire:unexpected-frame", "frame %d of %d: type %#x len %d (ending=%s)", i, len(aFrames), f.typ, len(f.data), ending)
+		if a.term != termType {
+			c10Viol(res, "C10:stream:wire:no-terminal-frame"+cw, "ending=%s but A's last frame on the wire is type %#x, not %#x", ending, a.term, termType)
 			return
 		}
-	}
-	if !bytes.Equal(onWire, sent) {
-		c10Viol(res, "C10:stream:wire:data-mismatch:"+szClass, "A wrote %d bytes, the data frames on the wire carry %d bytes, first difference at %d", len(sent), len(onWire), firstDiff(onWire, sent))
-		return
-	}
-	if termType != 0 && (len(aFrames) == 0 || aFrames[len(aFrames)-1].typ != termType) {
-		c10Viol(res, "C10:stream:wire:no-terminal-frame", "ending=%s but the last frame on the wire is not type %#x", ending, termType)
-		return
+		for j, o := range others {
+			oa := accts[o.id]
+			wantTerm := map[string]byte{"closewrite": c10TEOF, "close": c10TClose}[o.ending]
+			if !bytes.Equal(oa.data, o.sent) || oa.term != wantTerm {
+				c10Viol(res, "C10:stream:wire:data-mismatch:other-writer"+cw, "writer %d (%s) wrote %d bytes ending %q; the wire carries %d bytes for it (first difference at %d), terminal frame %#x", j, o.kind, len(o.sent), o.ending, len(oa.data), firstDiff(oa.data, o.sent), oa.term)
+				return
+			}
+		}
 	}
 
 	// ---- phase 2: the harness is the wire to B
@@ -1164,8 +1527,17 @@ func c10PureStream(c *simrt.Choice, res *simrt.Result) {
 		}
 	}
 	var feedFrames []c10frame
+	if conc {
+		// the other tunnels' frames are the ones the concurrent writers produced
+		feedFrames = allFrames
+		for _, f := range allFrames {
+			if f.origin != "A" {
+				injs = append(injs, c10inj{kind: f.origin, size: len(f.data), typ: f.typ, before: -1})
+			}
+		}
+	}
 	ii := 0
-	for i := 0; i <= len(aFrames); i++ {
+	for i := 0; !conc && i <= len(aFrames); i++ {
 		for ii < len(injs) && injs[ii].before == i {
 			in := injs[ii]
 			f := c10frame{id: idA, typ: in.typ, data: c10Pattern(in.size, 0xEE), origin: in.kind}
@@ -1186,10 +1558,19 @@ func c10PureStream(c *simrt.Choice, res *simrt.Result) {
 		feed = c10RefEncode(feed, f)
 	}
 	cutAt, cutClass := len(feed), "none"
+	var corruptTail []byte
 	if cut && len(feedFrames) > 0 {
 		k := c.Intn(len(feedFrames), "cut.frame")
 		flen := c10Hdr + len(feedFrames[k].data)
-		switch c.Intn(4, "cut.where") {
+		switch c.Intn(5, "cut.where") {
+		case 4:
+			// the wire is not cut but corrupt: a header announcing more than the limit
+			cutAt, cutClass = bounds[k], "oversize-length"
+			corruptTail = make([]byte, c10Hdr)
+			copy(corruptTail, feedFrames[k].id[:])
+			corruptTail[16] = feedFrames[k].typ
+			binary.BigEndian.PutUint32(corruptTail[17:], []uint32{c10Limit + 1, 0x7fffffff, 0xffffffff}[c.Intn(3, "cut.len")])
+			corruptTail = append(corruptTail, c10Pattern(c.Intn(40, "cut.extra"), 3)...)
 		case 0:
 			cutAt, cutClass = bounds[k]+1+c.Intn(c10Hdr-1, "cut.off"), "inside-header"
 		case 1:
@@ -1233,6 +1614,9 @@ func c10PureStream(c *simrt.Choice, res *simrt.Result) {
 			off = fend
 		}
 	}
+	if corruptTail != nil && !ended {
+		midFrame = true
+	}
 	// foreignEndBeforeCut: an EOF/Close frame of the other tunnel lies completely
 	// in front of the cut and in front of A's own terminal frame (diagnosis only)
 	foreignEndBeforeCut := func() bool {
@@ -1274,8 +1658,12 @@ func c10PureStream(c *simrt.Choice, res *simrt.Result) {
 		injDesc = append(injDesc, fmt.Sprintf("%s@%d(%dB)", in.kind, in.before, in.size))
 		res.Probes["stream.inject."+in.kind]++
 	}
-	res.Sample = fmt.Sprintf("world=stream ids=%s(shared16=%v) writes=%v ending=%s frames=%d inject=%v cut=%s@%d/%d readbuf=%v feedchunks=%v", idClass, shared, sizes, ending, len(aFrames), injDesc, cutClass, cutAt, len(feed), bufSizes, chunkPlan)
-	res.States[fmt.Sprintf("stream/%s/%s/%s/inj%v/buf%d/%s", szClass, ending, cutClass, len(injs) > 0, bufClass, idClass)]++
+	var concDesc []string
+	for _, o := range others {
+		concDesc = append(concDesc, fmt.Sprintf("%s%v/%s", o.kind, o.sizes, o.ending))
+	}
+	res.Sample = fmt.Sprintf("world=stream concurrent=%v reader-ops=%s ids=%s(shared16=%v) writes=%v ending=%s frames=%d inject=%v cut=%s@%d/%d readbuf=%v feedchunks=%v", concDesc, bOps, idClass, shared, sizes, ending, len(aFrames), injDesc, cutClass, cutAt, len(feed), bufSizes, chunkPlan)
+	res.States[fmt.Sprintf("stream/%s/%s/%s/inj%v/buf%d/%s/conc%d/%s", szClass, ending, cutClass, len(injs) > 0, bufClass, idClass, len(others), bOps)]++
 	if cutClass != "none" {
 		res.Faults["stream.wire-cut."+cutClass]++
 	}
@@ -1287,7 +1675,7 @@ func c10PureStream(c *simrt.Choice, res *simrt.Result) {
 			}
 		}
 	}
-	if multi || len(injs) > 0 || smallBuf || cutClass != "none" {
+	if multi || len(injs) > 0 || smallBuf || cutClass != "none" || conc || bOps != "none" {
 		res.Nontrivial = true
 	}
 	if smallBuf {
@@ -1295,6 +1683,65 @@ func c10PureStream(c *simrt.Choice, res *simrt.Result) {
 	}
 	if multi {
 		res.Probes["stream.write-split"]++
+	}
+
+	// ---- B's own write side (before it reads)
+	bClosed := false
+	if bOps != "none" {
+		var bSent []byte
+		if strings.HasPrefix(bOps, "write") {
+			bSent = c10Pattern(1+c.Intn(3000, "b.write"), 0x5B)
+			if n, err := fsB.Write(bSent); err != nil || n != len(bSent) {
+				c10Viol(res, "C10:stream:write-failed:reader-side", "B's write of %d bytes returned n=%d err=%v", len(bSent), n, err)
+				return
+			}
+		}
+		bTerm := c10TEOF
+		var err error
+		if strings.HasSuffix(bOps, "closewrite") {
+			err = fsB.CloseWrite()
+		} else {
+			err, bTerm = fsB.Close(), c10TClose
+		}
+		if err != nil {
+			c10Viol(res, "C10:stream:close-failed:reader-side", "%s: %v", bOps, err)
+			return
+		}
+		var bGot []byte
+		for {
+			hdr := make([]byte, c10Hdr)
+			if _, err := io.ReadFull(hB, hdr); err != nil {
+				c10Viol(res, "C10:stream:wire:malformed:reader-side", "reading B's frames from its socket: %v (have %d of %d bytes)", err, len(bGot), len(bSent))
+				return
+			}
+			n := binary.BigEndian.Uint32(hdr[17:])
+			var id [16]byte
+			copy(id[:], hdr)
+			if id != idA || n > c10Limit {
+				c10Viol(res, "C10:stream:wire:malformed:reader-side", "B wrote a frame with id %x len %d", id, n)
+				return
+			}
+			pl := make([]byte, n)
+			if _, err := io.ReadFull(hB, pl); err != nil {
+				c10Viol(res, "C10:stream:wire:malformed:reader-side", "reading B's frame payload: %v", err)
+				return
+			}
+			if hdr[16] == c10TData {
+				bGot = append(bGot, pl...)
+				continue
+			}
+			if hdr[16] != bTerm || n != 0 {
+				c10Viol(res, "C10:stream:wire:unexpected-frame:reader-side", "B (%s) wrote a frame of type %#x len %d", bOps, hdr[16], n)
+				return
+			}
+			break
+		}
+		if !bytes.Equal(bGot, bSent) {
+			c10Viol(res, "C10:stream:wire:data-mismatch:reader-side", "B wrote %d bytes, its data frames carry %d", len(bSent), len(bGot))
+			return
+		}
+		bClosed = true
+		res.Probes["stream.reader-closed-its-write-side."+bOps]++
 	}
 
 	// When A ended the stream with its own EOF/Close frame the connection may
@@ -1306,7 +1753,7 @@ func c10PureStream(c *simrt.Choice, res *simrt.Result) {
 	}
 	feedDone := make(chan error, 1)
 	go func() {
-		data := feed[:cutAt]
+		data := append(append([]byte(nil), feed[:cutAt]...), corruptTail...)
 		off, i := 0, 0
 		for off < len(data) {
 			n := 64 << 10
@@ -1433,7 +1880,14 @@ func c10PureStream(c *simrt.Choice, res *simrt.Result) {
 			// 16-byte wire id ended this stream first (same class as the uncut case)
 			c10Viol(res, "C10:stream:foreign-frame-taken-as-own:shared-16-byte-prefix:eof-or-close", "tunnel %q and tunnel %q are different tunnels but have the same 16-byte wire id %q; B (tunnel %q) received %d of the %d bytes A wrote and then io.EOF: the other tunnel's EOF/Close frame (%v) was taken as its own", own, foreign, string(idA[:]), own, len(got), len(sent), injDesc)
 		} else if rerr == io.EOF {
-			c10Viol(res, "C10:stream:truncated-frame-reported-as-eof:"+cutClass, "the connection died %s (wire offset %d of %d); A had written %d bytes and never closed from B's point of view, B received %d bytes and then a clean io.EOF: lost data is presented as a complete stream", cutClass, cutAt, len(feed), len(sent), len(got))
+			what, rd := "truncated-frame", ""
+			if corruptTail != nil {
+				what = "corrupt-frame"
+			}
+			if bClosed {
+				rd = ":reader-half-closed" // B had ended its own write side (" + bOps + ") before reading
+			}
+			c10Viol(res, "C10:stream:"+what+"-reported-as-eof:"+cutClass+rd, "the wire failed %s (offset %d of %d, B's own write side: %s); A had written %d bytes and never closed from B's point of view, B received %d bytes and then a clean io.EOF: lost data is presented as a complete stream", cutClass, cutAt, len(feed), bOps, len(sent), len(got))
 		}
 	default:
 		// the connection ended at a frame boundary without EOF/Close frame: don't-care
